@@ -19,10 +19,11 @@ JsonObject = Forward()
 TRUE = Literal("true", value=True)
 FALSE = Literal("false", value=False)
 NULL = Literal("null", value=None)
-SimpleValue = (Number | QuotedString | JsonObject | JsonArray | TRUE | FALSE | NULL)
+JsonString = (Literal('""', value="") | QuotedString)
+SimpleValue = (Number | JsonString | JsonObject | JsonArray | TRUE | FALSE | NULL)
 JsonValue = (WS >> SimpleValue << WS)
-Key = (QuotedString << Colon)
+Key = (JsonString << WS << Colon)
 KVPairs = (((WS >> Key) + JsonValue).sep_by(Comma))
-JsonArray <= (LeftBracket >> JsonValue.sep_by(Comma) << RightBracket)
-JsonObject <= (LeftCurly >> KVPairs.map(lambda res: dict((k, v) for (k, v) in res)) << RightCurly)
+JsonArray <= (LeftBracket >> WS >> JsonValue.sep_by(Comma) << RightBracket)
+JsonObject <= (LeftCurly >> WS >> KVPairs.map(lambda res: dict((k, v) for (k, v) in res)) << RightCurly)
 Top = JsonValue + EOF
